@@ -97,6 +97,31 @@ def check_exp(ctx: Ctx, c: Dict[str, Any], k_: int = 0) -> None:
     e = guarded("FlowFields.exp", lambda: f0.exp(scale=s, steps=k))
     if e is not None and max_err(e.tensor(), exp) > 2e-5:
         bad("FlowFields.exp", f"differs from the closed form by {max_err(e.tensor(), exp):.3g}")
+    # the same velocity field stored w.r.t. every other axes: the exponential keeps the axes kind and means the same displacement
+    for ax in (Axes.GRID, Axes.WORLD, Axes.from_align_corners(not ac)):
+        fx = guarded("FlowFields.axes", lambda: f0.axes(ax), axes=ax.value)
+        if fx is None:
+            continue
+        ex = guarded("FlowFields.exp", lambda: fx.exp(scale=s, steps=k), axes=ax.value)
+        if ex is None:
+            continue
+        if ex.axes() is not ax:
+            bad("FlowFields.exp", f"exponential of a field with {ax.value} axes is labelled {ex.axes().value}", axes=ax.value, what="label")
+            continue
+        back = guarded("FlowFields.axes", lambda: ex.axes(Axes.from_align_corners(ac)).tensor(), axes=ax.value)
+        if back is not None and max_err(back, exp) > 1e-4:
+            bad("FlowFields.exp", f"exponential of the field stored with {ax.value} axes differs from the closed form by {max_err(back, exp):.3g}", axes=ax.value)
+    # inverse of the transform: its displacement buffer is the exponential of the negated field, whichever way it is obtained
+    if t is not None:
+        neg = guarded("expv[-scale]", lambda: U.expv(v32, scale=-s, steps=k, align_corners=ac))
+        for how, mk in (("inverse(update_buffers=True)", lambda: t.inverse(update_buffers=True).u), ("inv", lambda: t.inv.u),
+                        ("inverse().update()", lambda: t.inverse().update().u), ("inverse(link=True).update()", lambda: t.inverse(link=True).update().u)):
+            ui = guarded("StationaryVelocityFieldTransform.inverse", mk, how=how)
+            if ui is not None and neg is not None and max_err(ui, neg) > 2e-5:
+                bad("StationaryVelocityFieldTransform.inverse", f"{how}: buffer u differs from the exponential of the negated field by {max_err(ui, neg):.3g}", how=how)
+        uf = guarded("StationaryVelocityFieldTransform.update", lambda: t.u)
+        if uf is not None and max_err(uf, exp) > 2e-5:
+            bad("StationaryVelocityFieldTransform.inverse", "taking the inverse changed the forward transform's displacement buffer", what="receiver")
     ctx.count(key=json.dumps([n, ac, c["A"], c["t"], c["s"], k]), nontrivial=k > 0 or s != 1.0)
 
 
